@@ -68,7 +68,20 @@ NP_FRESH = {"copy", "zeros", "ones", "array", "hstack", "vstack", "tile", "arang
             "prod", "zeros_like", "ones_like", "empty", "concatenate", "cumsum", "mean", "float64", "isfinite",
             "tan", "power", "absolute", "log10", "floor", "ceil", "array_equal", "allclose", "shape", "size",
             "ndim", "repeat", "eye", "dot", "outer", "int64", "flatnonzero", "argsort", "unique", "isnan", "amax",
-            "amin", "round", "clip", "stack", "isclose", "count_nonzero"}
+            "amin", "round", "clip", "stack", "isclose", "count_nonzero",
+            # elementwise ufuncs spelled as functions (`np.negative(x)` for `-x`, `np.greater(a, b)` for `a > b`, ...):
+            # the result is a new array; an `out=` argument is recorded as a write by `npcall`
+            "negative", "positive", "add", "subtract", "multiply", "divide", "true_divide", "floor_divide", "mod",
+            "remainder", "square", "reciprocal", "fabs", "greater", "greater_equal", "less", "less_equal", "equal",
+            "not_equal", "logical_xor", "fmax", "fmin", "hypot", "arctan2", "arctan", "arcsin", "arccos", "sinh",
+            "cosh", "tanh", "exp2", "expm1", "log2", "log1p", "cbrt", "rint", "trunc", "heaviside", "copysign",
+            "signbit", "isinf", "full_like", "empty_like", "identity", "argmax", "argmin", "argwhere"}
+NP_UFUNC1 = {"abs", "absolute", "fabs", "negative", "positive", "exp", "exp2", "expm1", "log", "log2", "log10", "log1p", "sqrt",
+             "cbrt", "square", "reciprocal", "sin", "cos", "tan", "arcsin", "arccos", "arctan", "sinh", "cosh", "tanh", "sign",
+             "floor", "ceil", "rint", "trunc", "isfinite", "isnan", "isinf", "signbit", "logical_not"}
+NP_UFUNC2 = {"add", "subtract", "multiply", "divide", "true_divide", "floor_divide", "mod", "remainder", "power", "maximum",
+             "minimum", "fmax", "fmin", "hypot", "arctan2", "copysign", "heaviside", "greater", "greater_equal", "less",
+             "less_equal", "equal", "not_equal", "logical_and", "logical_or", "logical_xor"}
 NP_WRITE0 = {"copyto", "put", "place", "putmask", "fill_diagonal"}
 METH_ALIAS = {"ravel", "reshape", "view", "squeeze", "transpose", "swapaxes"}
 METH_FRESH = {"copy", "flatten", "item", "tobytes", "sum", "max", "min", "all", "any", "astype", "tolist",
@@ -107,6 +120,12 @@ def rlean(r):
 
 def rkey(r):
     return ({"inp": 0, "meshObj": 1, "meshData": 2, "glob": 3, "fresh": 4}[r[0]], r[1] if len(r) > 1 else 0)
+
+
+def srt(rs):
+    """regions in a fixed order: the ORDER in which instructions / variables / sites are created must not depend on
+    the iteration order of Python sets (string hashing is randomised per process)"""
+    return sorted(rs, key=rkey)
 
 
 def is_fresh(r):
@@ -169,6 +188,7 @@ class Package:
         self.funcs = {}     # module -> name -> Fn
         self.classes = {}   # name -> Cls
         self.scope = {}     # module -> visible name -> ("func", Fn) | ("class", Cls)
+        self.modvars = {}   # module -> names bound at module level to something that is not an immutable constant
         self.all = []
         for mod in MODULES:
             path = os.path.join(root, "src/pyfvtool", mod + ".py")
@@ -177,7 +197,16 @@ class Package:
             rel = f"src/pyfvtool/{mod}.py"
             tree = ast.parse(open(path).read())
             self.funcs[mod] = {}
+            self.modvars[mod] = set()
             for st in tree.body:
+                if isinstance(st, (ast.Assign, ast.AnnAssign, ast.AugAssign)):
+                    tgs = st.targets if isinstance(st, ast.Assign) else [st.target]
+                    val = st.value
+                    if val is not None and not self._immutable_const(val):
+                        for tg in tgs:
+                            for n in ast.walk(tg):
+                                if isinstance(n, ast.Name):
+                                    self.modvars[mod].add(n.id)
                 if isinstance(st, ast.FunctionDef) and not self._overload(st):
                     f = Fn(mod, None, st, "func", rel)
                     self.funcs[mod][st.name] = f; self.all.append(f)
@@ -208,6 +237,8 @@ class Package:
                 if isinstance(st, ast.ImportFrom) and st.level >= 1 and st.module in self.funcs:
                     for al in st.names:
                         nm = al.asname or al.name
+                        if al.name in self.modvars.get(st.module, ()):
+                            self.modvars[mod].add(nm)      # module-level state of a sibling module, imported by name
                         if al.name in self.funcs[st.module]:
                             sc[nm] = ("func", self.funcs[st.module][al.name])
                         elif al.name in self.classes:
@@ -235,6 +266,19 @@ class Package:
         for f in self.all:
             self._param_regions(f)
         self._ret_types()
+
+    @staticmethod
+    def _immutable_const(v):
+        """numbers, strings, None, tuples of these: a module-level NAME bound to such a value carries no shared state"""
+        if isinstance(v, ast.Constant):
+            return True
+        if isinstance(v, ast.UnaryOp) and isinstance(v.op, (ast.USub, ast.UAdd)):
+            return Package._immutable_const(v.operand)
+        if isinstance(v, ast.Tuple):
+            return all(Package._immutable_const(x) for x in v.elts)
+        if isinstance(v, ast.BinOp):
+            return Package._immutable_const(v.left) and Package._immutable_const(v.right)
+        return False
 
     @staticmethod
     def _overload(fn):
@@ -578,6 +622,12 @@ class Builder:
         if isinstance(e, ast.Name):
             if e.id in self.locals:
                 return [self.v(e.id)]
+            if e.id in self.pkg.modvars.get(self.fn.module, ()):
+                # a module-level variable (a cache, a registry, ...): module-level state, shared between calls
+                self.uses_glob = True
+                t = self.tmp(("globvar", e.id), f"%global:{e.id}")
+                self.emit("globret", t, e)
+                return [t]
             return []
         if isinstance(e, ast.Constant):
             return []
@@ -587,7 +637,7 @@ class Builder:
                     self.ev(v.value, False)
             return []
         if isinstance(e, ast.Attribute):
-            if isinstance(e.value, ast.Name) and e.value.id not in self.locals:
+            if isinstance(e.value, ast.Name) and e.value.id not in self.locals and e.value.id not in self.pkg.modvars.get(self.fn.module, ()):
                 return []         # np.pi, np.newaxis, module constants
             base = self.ev(e.value, True)
             if not base or e.attr in ATTR_SCALAR:
@@ -784,6 +834,8 @@ class Builder:
                 tg = self.pkg.scope[self.fn.module].get(f.id)
             if not (tg and tg[0] == "func"):
                 return None
+            if any(ast.unparse(d) not in ("overload", "staticmethod") for d in getattr(tg[1].node, "decorator_list", [])):
+                return None     # decorated (caching) callee: no direct dereference, the general rule below applies
             return self.pkgcall(node, [(tg[1], self.argmap(tg[1], node))], True, True)
         if isinstance(f, ast.Name):
             nm = f.id
@@ -798,6 +850,10 @@ class Builder:
                 return self.fresh(node, need, "deep")
             if nm == "abs" and node.args and self.etype(node.args[0]) in ("cell", "face"):
                 return self.dunder(self.etype(node.args[0]), "abs", node.args[0], None, node, need)
+            if nm == "abs" and len(node.args) == 1 and not node.keywords:
+                # builtin abs of an ndarray / number is `x.__abs__()`: a new array (of a variable: handled above)
+                self.all_args(node, False)
+                return self.fresh(node, need)
             if nm == "getattr" and len(node.args) >= 2 and isinstance(node.args[1], ast.Constant) and isinstance(node.args[1].value, str):
                 fake = ast.Attribute(value=node.args[0], attr=node.args[1].value, ctx=ast.Load())
                 ast.copy_location(fake, node)
@@ -845,7 +901,7 @@ class Builder:
             return self.conservative(node, f"call of unknown function {nm}", self.all_args(node))
         if isinstance(f, ast.Attribute):
             m = f.attr
-            if isinstance(f.value, ast.Name) and f.value.id not in self.locals:
+            if isinstance(f.value, ast.Name) and f.value.id not in self.locals and f.value.id not in self.pkg.modvars.get(self.fn.module, ()):
                 mod = f.value.id
                 if mod in ("np", "numpy"):
                     return self.npcall(node, m, need)
@@ -931,8 +987,15 @@ class Builder:
             self.all_args(node, False)
             return []
         if m in NP_FRESH:
+            # a ufunc called with its output array as an extra POSITIONAL argument (`np.add(a, b, c)`) writes into it
+            extra = node.args[2:] if m in NP_UFUNC2 else (node.args[1:] if m in NP_UFUNC1 else [])
+            outs = []
+            for a in extra:
+                for x in self.ev(a, True):
+                    self.emit("write", x, node)
+                    outs.append(x)
             self.all_args(node, False)
-            return self.fresh(node, need)
+            return outs if outs else self.fresh(node, need)
         if m in ("random",):
             self.uses_glob = True
             self.emit("globwrite", node)
@@ -1031,7 +1094,7 @@ class Analysis:
         if instr not in self.instrs:
             self.instrs[instr] = []
             self.changed = True
-        if note not in self.instrs[instr] and len(self.instrs[instr]) < 6:
+        if note not in self.instrs[instr] and len(self.instrs[instr]) < 32:
             self.instrs[instr].append(note)
 
     # ---------------------------------------------------------------- canonical variables
@@ -1120,19 +1183,19 @@ class Analysis:
         elif op == "globwrite":
             self.ins(("write", self.cv(GLOB)), note + " (module-level state)")
         elif op == "globret":
-            self.ins(("alias", st[1], self.cv(GLOB)), note + " (result of a decorated / caching function)")
+            self.ins(("alias", st[1], self.cv(GLOB)), note + " (module-level state: a module variable, or the result of a decorated / caching function)")
         elif op == "globdefault":
             if self.P(st[1]) & self.writes:
                 self.ins(("write", self.cv(GLOB)), note + " (mutable default argument written)")
         elif op == "item":
             x, base = st[1], st[2]
-            for r in list(self.ptsl(base)):
-                for q in self.members(r, None):
+            for r in srt(self.ptsl(base)):
+                for q in srt(self.members(r, None)):
                     self.ins(("alias", x, self.cv(q)), note)
         elif op == "attr":
             x, base, name = st[1], st[2], st[3]
             rs = self.ptsl(base)
-            for side in self.sides(rs):
+            for side in sorted(self.sides(rs)):
                 getters = [f for f in self.pkg.getters_by_name.get(name, []) if f.cls.side == side]
                 if getters:
                     for f in getters:
@@ -1141,13 +1204,13 @@ class Analysis:
                         else:
                             self.apply(f, {0: base}, x, False, ("get", x, f.qual), note + f" (property {f.cls.name}.{name})")
                 else:
-                    for r in [r for r in rs if self.sides({r}) == {side}]:
-                        for q in self.members(r, name):
+                    for r in srt(r for r in rs if self.sides({r}) == {side}):
+                        for q in srt(self.members(r, name)):
                             self.ins(("alias", x, self.cv(q)), note)
         elif op == "setattr":
             base, name, vals = st[1], st[2], st[3]
             rs = self.ptsl(base)
-            for side in self.sides(rs):
+            for side in sorted(self.sides(rs)):
                 setters = [f for f in self.pkg.setters_by_name.get(name, []) if f.cls.side == side]
                 if setters:
                     for f in setters:
@@ -1205,33 +1268,34 @@ class Analysis:
             for (r, fld), ms in S["cont"].items():
                 inner |= ms
             skip = {r for r in S["ret"] if is_tup(r) and r not in inner}     # tuples that are unpacked at once
-        for r in S["writes"]:
-            for q in inst(r):
+        cont_items = sorted(S["cont"].items(), key=lambda kv: (rkey(kv[0][0]), kv[0][1]))
+        for r in srt(S["writes"]):
+            for q in srt(inst(r)):
                 self.ins(("write", self.cv(q)), note)
-        for (r, fld), ms in S["cont"].items():
+        for (r, fld), ms in cont_items:
             if r in skip:
                 continue
             tgt = inst(r)
             if (r, fld) in S.get("root_stores", ()):
                 tgt = {q for q in self.ptsl(argmap.get(r[1], [])) if not is_mesh(q)}
-            for p in ms:
-                for p2 in inst(p):
-                    for q in tgt:
+            for p in srt(ms):
+                for p2 in srt(inst(p)):
+                    for q in srt(tgt):
                         self.ins(("store", self.cv(q), self.cv(p2), fld), note)
         if x is not None:
-            for r in S["ret"]:
+            for r in srt(S["ret"]):
                 if r in skip:
-                    for (r2, fld), ms in S["cont"].items():
+                    for (r2, fld), ms in cont_items:
                         if r2 == r:
-                            for p in ms:
-                                for p2 in inst(p):
+                            for p in srt(ms):
+                                for p2 in srt(inst(p)):
                                     self._ret_into(x, p2, note)
                     continue
-                for q in inst(r):
+                for q in srt(inst(r)):
                     if deref:
                         if not is_tup(r):
                             self._ret_into(x, q, note)       # x[i] of an array / input object
-                        for q2 in self.members(q, None):
+                        for q2 in srt(self.members(q, None)):
                             self.ins(("alias", x, self.cv(q2)), note)
                     else:
                         self._ret_into(x, q, note)
@@ -1541,6 +1605,21 @@ def finalize(an):
             "regions": regions, "varnames": [an.names[x] for x in order], "sites": sites}
 
 
+_LOC = __import__("re").compile(r"src/pyfvtool/(\w+)\.py:(\d+)")
+
+
+def loc_key(a):
+    """sort key of a source note: file, line AS A NUMBER, rest"""
+    m = _LOC.search(a)
+    return (m.group(1), int(m.group(2)), a) if m else ("", 0, a)
+
+
+def where(at):
+    """the notes with the line numbers removed (what the pinned lists of harness/props/C15.py compare): a reason must
+    not change because a comment / docstring / blank line moved the code"""
+    return sorted(set(_LOC.sub(lambda m: m.group(1) + ".py", a) for a in at))
+
+
 def check(F, mutable, allowed):
     """Python replica of `PyFV.Eff.safe` (returns ok, closed, reasons)"""
     pts = lambda x: F["pts"].get(x, [])
@@ -1586,7 +1665,7 @@ def check(F, mutable, allowed):
         for ins, nt in zip(F["body"], F["notes"]):
             if ins[0] in ("write", "store") and r in pts(ins[1]):
                 at += nt
-        why.append({"kind": "writes", "region": rstr(r), "at": sorted(set(at))[:8]})
+        why.append({"kind": "writes", "region": rstr(r), "at": sorted(set(at), key=loc_key)[:8], "where": where(at)})
     rets = set()
     for ins in F["body"]:
         if ins[0] == "ret":
@@ -1597,7 +1676,7 @@ def check(F, mutable, allowed):
         for ins, nt in zip(F["body"], F["notes"]):
             if ins[0] == "ret" and r in pts(ins[1]):
                 at += nt
-        why.append({"kind": "returns", "region": rstr(r), "at": sorted(set(at))[:8]})
+        why.append({"kind": "returns", "region": rstr(r), "at": sorted(set(at), key=loc_key)[:8], "where": where(at)})
     bad_c = False
     for r in F["regions"]:
         if is_fresh(r):
@@ -1609,7 +1688,7 @@ def check(F, mutable, allowed):
                         if ins[0] == "store" and r in pts(ins[1]) and q in pts(ins[2]):
                             at += nt
                     why.append({"kind": "fresh-contains", "site": rstr(r), "site_at": F["sites"].get(r[1], {}).get("line"),
-                                "region": rstr(q), "at": sorted(set(at))[:8]})
+                                "region": rstr(q), "at": sorted(set(at), key=loc_key)[:8], "where": where(at)})
     ok = closed and not bad_w and not bad_r and not bad_c
     return ok, closed, why
 
